@@ -126,7 +126,7 @@ def oracle(ctx):
         nc = rng.randrange(1, 3)
         ba = rng.choice([(), (), (2,)])
         mode = rng.choice(["none", "E", "EM"])
-        kind = rng.choice(["dense", "matrix-free", "composed", "product"])
+        kind = rng.choice(["dense", "matrix-free", "composed", "product", "hermitian+general"])
         a = torch.tensor(0.7, dtype=dtype, requires_grad=True)
         Bm = (0.3 * torch.randn(*ba, n, n, dtype=dtype)).requires_grad_()
         dv = (2.0 + torch.rand(n, dtype=torch.float64)).to(dtype).requires_grad_()
@@ -143,7 +143,13 @@ def oracle(ctx):
         def dense_Q():
             return torch.eye(n, dtype=dtype) + 0.2 * Bm
 
+        H0 = torch.randn(n, n, dtype=dtype)
+        H0 = 0.2 * (H0 + H0.transpose(-2, -1).conj())
+
         def dense_A():
+            # "hermitian+general": a Hermitian-flagged term plus a general one is NOT Hermitian (seeded defect C02/6)
+            if kind == "hermitian+general":
+                return H0 + dense_A0()
             # "product": a matrix-free factor times a dense factor (the adjoint of a product reverses the factors;
             # seeded defect C02/3)
             return dense_A0() @ dense_Q() if kind == "product" else dense_A0()
@@ -156,6 +162,8 @@ def oracle(ctx):
                 return xt.LinearOperator.m(dense_A(), is_hermitian=False)
             if kind == "matrix-free":
                 return MVOp(a, Bm, dv, False)
+            if kind == "hermitian+general":
+                return xt.LinearOperator.m(H0, is_hermitian=True) + MVOp(a, Bm, dv, False)
             if kind == "product":
                 return MVOp(a, Bm, dv, False).matmul(xt.LinearOperator.m(dense_Q(), is_hermitian=False))
             return MVOp(a * 0.5, Bm, dv * 0.5, False) + xt.LinearOperator.m(0.5 * dense_A(), is_hermitian=False)
@@ -208,6 +216,48 @@ def oracle(ctx):
                 if raw[-1] is not None and float(raw[-1].abs().max()) != 0:
                     ctx.fail("oracle", "solvegrad:unused-nonzero", info, raw[-1], "None or zero")
     backward_options_probe(ctx)
+    operator_reuse_probe(ctx)
+
+
+def operator_reuse_probe(ctx):
+    """the temporary substitution of the operator's parameters ends with the ORIGINAL tensors back in place (seeded defect
+    C02/4: the clones of the pull-back were left in the operator): after a backward pass the operator holds the same
+    tensor objects, and a second solve after an in-place update of the leaf sees the update"""
+    import xitorch as xt
+    from xitorch.linalg import solve
+
+    class MV1(xt.LinearOperator):
+        def __init__(self, m):
+            super().__init__(shape=m.shape, is_hermitian=False, dtype=m.dtype, device=m.device)
+            self.m = m
+
+        def _mv(self, x):
+            return torch.matmul(self.m, x.unsqueeze(-1)).squeeze(-1)
+
+        def _getparamnames(self, prefix=""):
+            return [prefix + "m"]
+    g = torch.Generator().manual_seed(ctx.seed + 41)
+    for kind in ("dense", "matrix-free"):
+        for meth in ("custom_exactsolve", "bicgstab"):
+            M0 = (0.3 * torch.randn(4, 4, dtype=torch.float64, generator=g) + 2 * torch.eye(4, dtype=torch.float64)).requires_grad_()
+            Bv = torch.randn(4, 1, dtype=torch.float64, generator=g)
+            op = xt.LinearOperator.m(M0, is_hermitian=False) if kind == "dense" else MV1(M0)
+            before = [id(p) for p in op.getlinopparams()]
+            with warnings.catch_warnings():
+                warnings.simplefilter("ignore")
+                X1 = solve(op, Bv, method=meth, **({} if meth == "custom_exactsolve" else dict(rtol=1e-12, atol=1e-14)))
+                torch.autograd.grad(X1.sum(), M0)
+                after = [id(p) for p in op.getlinopparams()]
+                with torch.no_grad():
+                    M0.mul_(2.0)
+                X2 = solve(op, Bv, method=meth, **({} if meth == "custom_exactsolve" else dict(rtol=1e-12, atol=1e-14)))
+            ctx.count(("operator-reuse", kind, meth), nontrivial=True)
+            info = {"operator": kind, "method": meth}
+            if after != before:
+                ctx.fail("oracle", "solvegrad:operator-parameters-not-restored", info, "different tensor objects after backward", "the original tensors")
+            elif not torch.allclose(X2.detach(), X1.detach() / 2, rtol=1e-8, atol=1e-10):
+                ctx.fail("oracle", "solvegrad:operator-reuse-stale", info, float((X2.detach() - X1.detach() / 2).abs().max()),
+                         "the second solve uses the updated leaf")
 
 
 def backward_options_probe(ctx):
